@@ -53,6 +53,10 @@ func Check(c *Case, h *Hist) []Finding {
 		add(p, "execution hung: Wait/Enqueue did not return and every goroutine is blocked:\n%s", h.Hang)
 		return out
 	}
+	if l, _ := h.Livelock.Load().(string); l != "" {
+		add("C05", "livelock: %s", l)
+		return out
+	}
 	jobs := c.effectiveJobs()
 	J := len(jobs)
 	started := func(j int) bool { return h.Starts[j].Load() > 0 }
